@@ -29,7 +29,8 @@ CHECKS = {
         category="model_checking",
         text="TLC checks progress and termination of the designs: Scan.tla (every scanner step consumes a token or ends; all "
              "token-class sequences up to 4-5), Interp.tla (Finishes under weak fairness) and the outcome sets of Totality.tla "
-             "(construct x depth class; XML token sequences x non-UTF-8 position). Every such input plus a seeded byte-mutation "
+             "(construct x depth class; XML token sequences x non-UTF-8 position; expression token sequences x context; every "
+             "built-in function x extreme numbers). Every such input plus a seeded byte-mutation "
              "corpus is run in worker processes with watchdog and memory limit: outcome must be ok or err, never panic / abort / "
              "hang; traces are validated against TraceStruct.tla; a sample goes through the svgdx command and svgdx-server.",
         note="Structure is exhausted within bounds, raw bytes are sampled; 'hang' is decided by a watchdog (>= 8 s for small inputs, "
@@ -53,8 +54,7 @@ CHECKS = {
              "a namespaced <svg> with payloads in attribute values, character data, CDATA and comments, character references, "
              "namespaced attributes, PIs, doctype, svgdx-looking content, and embedded namespaced subtrees; oracle: expat infoset "
              "of input = infoset of output under several configurations; plus examples/*.svg.",
-        note="Attribute order is not part of the infoset. Two narrow listed findings (newline character references in attribute "
-             "values; blanks before a newline in character data).",
+        note="Attribute order is not part of the infoset.",
         technique="TLC enumeration on Text.tla + replay with infoset comparison by an independent XML parser",
         design_ref="DESIGN.md 7 (C03)"),
     "C04": dict(
@@ -69,7 +69,7 @@ CHECKS = {
     "C05": dict(
         category="model_checking",
         text="Text.tla Idempotent (negative control DoubleEscape) states the lemma; every successfully transformed svg-rooted "
-             "document of the generated corpus (Text.tla sources x strings, Interp.tla programs, examples) is fed back under two "
+             "document of the generated corpus (Text.tla sources x strings, root shapes and attributes, Interp.tla programs, examples) is fed back under two "
              "further configurations and must come back byte for byte.",
         note="Corpus-based: documents generated by the TLA+ families of the other checks.",
         technique="TLC invariant on Text.tla + two-step histories replayed on the implementation (bytes compared)",
@@ -78,8 +78,9 @@ CHECKS = {
         category="model_checking",
         text="Styles.tla PermIndependent (emission order independent of hash iteration order; negative control HashOrderLeaks) "
              "and Frontend.tla Functional; for every key (class sets with several pattern classes, random()/randint() under "
-             "seeds, multi-error documents, examples) a history of observations in fresh processes, threads and repetitions is "
-             "recorded and validated by TLC against TraceFrontend.tla (equal key => equal bytes).",
+             "seeds, multi-error documents, examples) a history of observations (output or error text; the command's failure "
+             "report) in fresh processes, shuffled in-process orders, threads and repetitions is recorded and validated by TLC "
+             "against TraceFrontend.tla (equal key => equal bytes).",
         note="Hash seeds cannot be enumerated: 4-6 fresh processes x 7 transforms per key.",
         technique="TLC model checking (Styles.tla, Frontend.tla) + TLC validation of recorded histories",
         design_ref="DESIGN.md 7 (C06)"),
@@ -87,7 +88,8 @@ CHECKS = {
         category="model_checking",
         text="Frontend.tla: all interleavings of up to 3 requests over library / server / command (temp file then copy): Agree, "
              "ErrorsReported, SameFileRefused, FilesSane, Functional, NoDamage, Served; negative controls SharedState, "
-             "WriteInPlace. Real histories (concurrent library transforms in one process, svgdx runs in every in/out mode with "
+             "WriteInPlace. Real histories (stream and string functions in isolation, in shuffled sequences and concurrently in one "
+             "process, svgdx runs in every in/out mode with "
              "pre-existing output / failing input / output = input, concurrent HTTP requests to one svgdx-server) are validated "
              "by TLC against TraceFrontend.tla with T measured by fresh library processes.",
         note="Crash points inside the file copy are model-only. Server empty-output -> 400 is an allowed named deviation.",
@@ -166,7 +168,8 @@ CHECKS = {
              "cyclic references x all sibling orders x size spellings x optional group) that the outcome equals Sem.Ideal: "
              "x coordinates follow the reference DAG whatever the order, unsatisfiable references fail, retry passes never "
              "grow and the run terminates. Every behaviour is replayed on the real code (x by id, Err for unsatisfiable) "
-             "and traces are validated against TraceStruct.tla.",
+             "and traces are validated against TraceStruct.tla. Geom.tla UnsatCases: every kind of unsatisfiable reference "
+             "x '#id' / '^' x twelve forms of use must make the transform fail.",
         note=INTERP_NOTE,
         technique="TLC model checking of Interp.tla (order family) + replay + TLC trace validation",
         design_ref="DESIGN.md 7 (C10)"),
@@ -193,7 +196,8 @@ CHECKS = {
         text="TLC checks output = Sem.Ideal for templates (shape/group, specs/inline, before/after use) x instantiation "
              "sequences with different bindings (instances from the original target, reuse attributes override target "
              "attributes, specs never rendered); on the real code predicted items and T(P) = T(Inline(P)) with the "
-             "inlining produced by the specification.",
+             "inlining produced by the specification; Geom.tla ReusePosCases: template kind x place x anchor x way of "
+             "writing the position, instance geometry compared.",
         note=INTERP_NOTE,
         technique="TLC model checking of Interp.tla (reuse family) + replay + translation validation against the spec-derived inlining",
         design_ref="DESIGN.md 7 (C18)"),
@@ -203,7 +207,8 @@ CHECKS = {
              "state, that the result class equals the reference meaning (error exactly when a limit is exceeded, nothing "
              "truncated) and that every run terminates, for every document of the depth/flat/loop/var families within "
              "the bounds; every such behaviour is replayed on the real code and every recorded trace is validated "
-             "against TraceStruct.tla (depth/scope at element exit = at entry on all paths). Default-limit instances "
+             "against TraceStruct.tla (depth/scope at element exit = at entry on all paths; a loop reports the configured "
+             "limit, runs at most one pass beyond it and the transform then fails with a limit error - and only then). Default-limit instances "
              "(thousands of siblings, nesting 99-101, 999-1001 iterations, 1023-1025 characters) use Sem.Ideal evaluated "
              "by TLC as oracle.",
         note="Bounded: documents up to MaxNodes (4-5) nodes with limits 2-4, plus scaled instances; trusted: TLC, the "
